@@ -362,6 +362,7 @@ func rulesC09(c *Ctx) {
 	shortcutsC09(c, tt, "C09.shortcuts")
 	promoteC09(c)
 	dispatchC09(c)
+	copyLiteralRule(c, "C09.copylit", func(name string) bool { return strings.HasPrefix(name, "reduce") || name == "Reduce" })
 	zoneC09(c)
 }
 
@@ -529,6 +530,38 @@ func shortcutsC09(c *Ctx, tt *tokenTable, rule string) {
 							return "R"
 						}
 						return rk
+					}
+					// a field of the operand (its inner expression, say) is not the operand
+					var base func(x ssa.Value, d int) string
+					base = func(x ssa.Value, d int) string {
+						if d > 6 {
+							return ""
+						}
+						if sv := r.get(x); sv.sym == "L" || sv.sym == "R" {
+							return sv.sym
+						}
+						switch y := x.(type) {
+						case *ssa.TypeAssert:
+							return base(y.X, d+1)
+						case *ssa.Extract:
+							return base(y.Tuple, d+1)
+						case *ssa.MakeInterface:
+							return base(y.X, d+1)
+						case *ssa.ChangeInterface:
+							return base(y.X, d+1)
+						}
+						return ""
+					}
+					res := rt.Results[0]
+					if mi, ok := res.(*ssa.MakeInterface); ok {
+						res = mi.X
+					}
+					if ld, ok := res.(*ssa.UnOp); ok {
+						if fa, ok := ld.X.(*ssa.FieldAddr); ok {
+							if b := base(fa.X, 0); b != "" {
+								return "part of " + b
+							}
+						}
 					}
 					return describeBoolLit(p, rt.Results[0])
 				}
